@@ -9,6 +9,7 @@ import (
 	"encoding/json"
 	"fmt"
 	"os"
+	"os/exec"
 	"strings"
 	"sync"
 
@@ -312,10 +313,16 @@ func buildConc(seed int64, kind string, prog [][]string) [][]concOp {
 				}})
 			}
 		}
-	case "eckey":
+	case "eckey", "ecfirst":
 		curve := elliptic.P256()
-		sk, _ := ecdsa.CreateKey(curve, kbScalar(seed, curve, "conc-sk").Bytes())
-		bk, _ := ecdsa.CreateKey(curve, kbScalar(seed, curve, "conc-bk").Bytes())
+		// key objects are assembled by hand (standard library arithmetic): in the "first" kinds nothing of the fork
+		// has run in this process before the concurrent phase
+		mk := func(label string) *ecdsa.PrivateKey {
+			d := kbScalar(seed, curve, label)
+			x, y := curve.ScalarBaseMult(d.Bytes())
+			return &ecdsa.PrivateKey{PublicKey: ecdsa.PublicKey{Curve: curve, X: x, Y: y}, D: d}
+		}
+		sk, bk := mk("conc-sk"), mk("conc-bk")
 		for g := range prog {
 			for i, name := range prog[g] {
 				d := hashBytes(seed, fmt.Sprintf("conc-d-%d-%d", g, i), 32)
@@ -331,7 +338,7 @@ func buildConc(seed int64, kind string, prog [][]string) [][]concOp {
 						return []byte(resBool(stdecdsa.Verify(stdPub(&sk.PublicKey), d, r, s)))
 					}
 				case "EcVerify":
-					r0, s0, _ := ecdsa.Sign(cryptorand.Reader, sk, d)
+					r0, s0, _ := stdecdsa.Sign(cryptorand.Reader, &stdecdsa.PrivateKey{PublicKey: *stdPub(&sk.PublicKey), D: sk.D}, d)
 					op.run = func() []byte { return []byte(resBool(ecdsa.Verify(&sk.PublicKey, d, r0, s0))) }
 				case "EcBlind":
 					op.run = func() []byte {
@@ -354,9 +361,9 @@ func buildConc(seed int64, kind string, prog [][]string) [][]concOp {
 				ops[g] = append(ops[g], op)
 			}
 		}
-	case "edkey":
-		priv := ed25519.NewKeyFromSeed(hashBytes(seed, "conc-ed-seed", 32))
-		pub := priv.Public().(ed25519.PublicKey)
+	case "edkey", "edfirst":
+		priv := ed25519.PrivateKey(stded.NewKeyFromSeed(hashBytes(seed, "conc-ed-seed", 32)))
+		pub := ed25519.PublicKey(append([]byte{}, priv[32:]...))
 		blind := hashBytes(seed, "conc-ed-blind", 32)
 		for g := range prog {
 			for i, name := range prog[g] {
@@ -401,22 +408,35 @@ func execConcurrency(c *ctx, in ev) []ev {
 	if reps < 1 {
 		reps = 1
 	}
+	first := strings.HasSuffix(kind, "first")
+	if first && os.Getenv("VERIF_CONC_CHILD") == "" {
+		return concChild(c, in)
+	}
+	if first {
+		reps = 1
+	}
 	e := ev{"op": "Conc", "kind": kind, "prog": in["prog"], "reps": reps, "races": 0, "race_text": "", "results_ok": true, "detail": "", "panic": ""}
 	before, _ := raceLogSize()
 	e["panic"] = guard(func() {
 		// sequential reference on its own fresh object
 		var want [][][]byte
-		ref := buildConc(c.seed, kind, prog)
-		for g := range ref {
-			var rs [][]byte
-			for _, op := range ref[g] {
-				v := op.run()
-				if op.post != nil && !bytes.HasPrefix(v, []byte("error: ")) {
-					v = op.post(v)
+		reference := func() {
+			want = nil
+			ref := buildConc(c.seed, kind, prog)
+			for g := range ref {
+				var rs [][]byte
+				for _, op := range ref[g] {
+					v := op.run()
+					if op.post != nil && !bytes.HasPrefix(v, []byte("error: ")) {
+						v = op.post(v)
+					}
+					rs = append(rs, v)
 				}
-				rs = append(rs, v)
+				want = append(want, rs)
 			}
-			want = append(want, rs)
+		}
+		if !first {
+			reference()
 		}
 		for rep := 0; rep < reps; rep++ {
 			ops := buildConc(c.seed, kind, prog) // a freshly constructed shared object, first use is concurrent
@@ -437,6 +457,9 @@ func execConcurrency(c *ctx, in ev) []ev {
 			}
 			close(start)
 			wg.Wait()
+			if first {
+				reference() // only now: the concurrent calls above were the first use of the package in this process
+			}
 			// client-side post-processing happens after the concurrent phase, sequentially
 			for g := range got {
 				for i := range got[g] {
@@ -476,6 +499,40 @@ func execConcurrency(c *ctx, in ev) []ev {
 		e["race_text"] = tail
 	}
 	return []ev{e}
+}
+
+// concChild executes one "first use" program in a process of its own (this binary, same race log settings), so that
+// the program's concurrent calls are the first thing the process does with the package under test: whatever the
+// package initialises lazily (tables behind sync.Once) is initialised by racing goroutines.
+func concChild(c *ctx, in ev) []ev {
+	e := ev{"op": "Conc", "kind": in["kind"], "prog": in["prog"], "reps": 1, "races": 0, "race_text": "", "results_ok": true, "detail": "", "panic": ""}
+	dir, err := os.MkdirTemp("", "verif-conc-child-")
+	if err != nil {
+		panic(err)
+	}
+	defer os.RemoveAll(dir)
+	b, _ := json.Marshal(in)
+	inPath, outPath := dir+"/case.ndjson", dir+"/out.ndjson"
+	if err := os.WriteFile(inPath, append(b, '\n'), 0o644); err != nil {
+		panic(err)
+	}
+	cmd := exec.Command(os.Args[0], "record", "concurrency", "-seed", fmt.Sprint(c.seed), "-tier", c.tier, "-in", inPath, "-out", outPath, "-shards", "1")
+	cmd.Env = append(os.Environ(), "VERIF_CONC_CHILD=1")
+	out, err := cmd.CombinedOutput()
+	data, rerr := os.ReadFile(outPath)
+	if err != nil || rerr != nil {
+		// the child died: a crash of the concurrent first use (the library's, if the stack says so)
+		e["panic"] = fmt.Sprintf("child process failed: %v\n%.1500s", err, out)
+		return []ev{e}
+	}
+	var got ev
+	dec := json.NewDecoder(bytes.NewReader(data))
+	dec.UseNumber()
+	if err := dec.Decode(&got); err != nil {
+		panic(fmt.Sprintf("child output unreadable: %v", err))
+	}
+	delete(got, "cid")
+	return []ev{got}
 }
 
 func genConcurrency(c *ctx, emit func(ev)) {
